@@ -83,6 +83,22 @@ func Snapshot(dir string) Snap {
 	return s
 }
 
+// DirModes maps every directory below dir, and dir itself ("."), to its permission bits.
+func DirModes(dir string) map[string]fs.FileMode {
+	m := map[string]fs.FileMode{}
+	filepath.WalkDir(dir, func(p string, d fs.DirEntry, err error) error {
+		if err != nil || !d.IsDir() {
+			return nil
+		}
+		if info, e := d.Info(); e == nil {
+			rel, _ := filepath.Rel(dir, p)
+			m[filepath.ToSlash(rel)] = info.Mode().Perm()
+		}
+		return nil
+	})
+	return m
+}
+
 func (s Snap) Equal(o Snap) bool {
 	if len(s) != len(o) {
 		return false
